@@ -207,8 +207,8 @@ MUTANTS = [
      "                mesh_dxdt[i*n_species+s] -= DiffusionRateDifference(i, s, n);", "C11.SENTINEL"),
     ("C11", "count-table-unguarded", E + "TauLeap3D.hpp", "                  if(mesh_neighbors[i*6+n] != -1)\n                    mesh_nd[i*6*n_species+s*6+n] = Poisson(DiffusionProp(i, s, n)*dt);\n                  else\n                    mesh_nd[i*6*n_species+s*6+n] = 0;",
      "                  mesh_nd[i*6*n_species+s*6+n] = Poisson(DiffusionProp(i, s, n)*dt);", "C11.SENTINEL"),
-    ("C11", "ffi-arg-dropped", P + "librdengine.py", "            #seed\n                ctypes.c_int(script.rng_seed),\n\n            #init_state_processing\n                ctypes.c_char_p(script.init_state_processing.encode()),\n\n            #option\n                ctypes.c_char_p(self.option.encode())\n                )\n\n        if   res == 1 :\n            raise Exception(\"Invalid option argument : \\\"\"+engine.get_option()+\"\\\".\")\n        elif res == 2 :\n            raise Exception(\"Invalid boundary conditions.\")\n            \n    def _setup_grid",
-     "            #init_state_processing\n                ctypes.c_char_p(script.init_state_processing.encode()),\n\n            #option\n                ctypes.c_char_p(self.option.encode())\n                )\n\n        if   res == 1 :\n            raise Exception(\"Invalid option argument : \\\"\"+engine.get_option()+\"\\\".\")\n        elif res == 2 :\n            raise Exception(\"Invalid boundary conditions.\")\n            \n    def _setup_grid", "C11.FFI"),
+    ("C11", "ffi-arg-dropped", P + "librdengine.py", "            #seed\n                ctypes.c_int(script.rng_seed),\n\n            #init_state_processing\n                ctypes.c_char_p(script.init_state_processing.encode()),\n\n            #option\n                ctypes.c_char_p(self.option.encode())\n                )\n\n        if   res == 1 :\n            raise Exception(\"Invalid option argument : \\\"\"+self.option+\"\\\".\")\n        elif res == 2 :\n            raise Exception(\"Invalid boundary conditions.\")\n            \n    def _setup_grid",
+     "            #init_state_processing\n                ctypes.c_char_p(script.init_state_processing.encode()),\n\n            #option\n                ctypes.c_char_p(self.option.encode())\n                )\n\n        if   res == 1 :\n            raise Exception(\"Invalid option argument : \\\"\"+self.option+\"\\\".\")\n        elif res == 2 :\n            raise Exception(\"Invalid boundary conditions.\")\n            \n    def _setup_grid", "C11.FFI"),
     ("C11", "ffi-wrong-ctype", P + "librdengine.py", "            #cell_vol\n                ctypes.c_double(script.system.space.cell_vol.convert(units_system).value),",
      "            #cell_vol\n                ctypes.c_int(script.system.space.cell_vol.convert(units_system).value),", "C11.FFI"),
     ("C11", "ffi-short-buffer", P + "librdengine.py", "        data_len = n_sample*self._script.system.state_size()", "        data_len = n_sample*self._script.system.space.size()", "C11.FFI-EXTENT"),
